@@ -43,6 +43,10 @@ fn main() {
     let prop = args[1].as_str();
     let mode = args[2].as_str();
     let arg = args.get(3).map(|s| s.as_str());
+    if prop == "C13" && mode == "dump-snapshot" {
+        props::c13::dump_snapshot();
+        return;
+    }
     let code = match prop {
         "C01" => dispatch(props::c01::C01, mode, arg),
         "C03" => dispatch(props::c03::C03, mode, arg),
@@ -50,7 +54,10 @@ fn main() {
         "C05" => dispatch(props::c05::C05, mode, arg),
         "C06" => dispatch(props::c06::C06, mode, arg),
         "C07" => dispatch(props::c07::C07, mode, arg),
+        "C09" => dispatch(props::c09::C09, mode, arg),
         "C12" => dispatch(props::c12::C12, mode, arg),
+        "C13" => dispatch(props::c13::C13, mode, arg),
+        "C14" => dispatch(props::c14::C14, mode, arg),
         "C15" => dispatch(props::c15::C15, mode, arg),
         _ => {
             eprintln!("unknown property {}", prop);
